@@ -122,6 +122,18 @@ def rank0_probe():
     return rc == 0, (out + err)
 
 
+def configure(fam):
+    """compile-time switches of h_compare for the tree under test (used by C19 too); no reporting"""
+    import os
+    has_ge = ge_probe()
+    has_rank0, _log = rank0_probe()
+    flags = (["-DC07_HAS_RANK0"] if has_rank0 else []) + (["-DC07_HAS_GE"] if has_ge else [])
+    if has_ge:
+        os.environ["C07_HAS_GE"] = "1"
+    fam.flags = tuple(flags)
+    return has_ge, has_rank0
+
+
 def run(tier, seed, replay=None):
     import os
     res = core.Result(PID, tier, seed, level="proof")
